@@ -844,7 +844,7 @@ def run(ctx):
                 if vv["accepted"]:
                     ctx.coverage["discharged"] += 1
                     stat["exit_validated_all_n"] += 1
-                else:
+                elif bad is None:     # (otherwise the concrete failing input has been reported above)
                     ctx.violation(f"check_exit:{text}:{gname}:{k}", {"program_text": text, "goal": gname, "order": k,
                                                                       "part": gr["parts"].get(str(k))},
                                   f"numerator/denominator closed forms of order {k} for {gname} are not validated as E[M 1_(not G')]_n and "
